@@ -84,6 +84,38 @@ fn main() {
         Some("check") | Some("worker") | Some("replay") => {
             std::process::exit(cli(&args));
         }
+        Some("selftest") => {
+            // selftest [cases]: determinism self-test. Every scenario runs a batch in which EVERY case is executed twice, in
+            // two different worker processes (other slice, other position in the batch, other heap history), at two worker
+            // counts; any differing event-log hash is a harness error (exit 2). Evidence goes to a scratch directory.
+            let cases: u64 = args.get(2).and_then(|s| s.parse().ok()).unwrap_or(1500);
+            let dir = std::env::temp_dir().join(format!("vsim-selftest-{}", std::process::id()));
+            let _ = std::fs::create_dir_all(dir.join("sim/target"));
+            let real_dir = std::env::var("VERIF_DIR").unwrap_or_else(|_| "/verif".to_string());
+            let _ = std::fs::copy(format!("{real_dir}/known_findings.json"), dir.join("known_findings.json"));
+            std::env::set_var("VSIM_RECHECK_ALL", "1");
+            let mut bad = 0;
+            let mut compared = 0u64;
+            for prop in ["C01", "C04", "C05", "C07", "C08", "C12", "C14", "C15", "C18", "C19"] {
+                for jobs in [16usize, 5] {
+                    let scn = scenario_for(prop).unwrap();
+                    let n = if prop == "C07" { cases / 10 } else { cases };
+                    let opts = coord::CheckOptions { tier: coord::Tier::Quick, seed: coord::DEFAULT_SEED + jobs as u64, jobs, verif_dir: dir.to_string_lossy().to_string(), cases_override: Some(n.max(16)) };
+                    let code = coord::check_main(scn.as_ref(), prop, &opts);
+                    let ev: serde_json::Value = std::fs::read_to_string(dir.join(format!("evidence/{prop}.json"))).ok().and_then(|t| serde_json::from_str(&t).ok()).unwrap_or_default();
+                    let d = &ev["coverage"]["determinism"];
+                    compared += d["cases_rerun_in_another_process"].as_u64().unwrap_or(0);
+                    let mism = d["mismatches"].as_u64().unwrap_or(0);
+                    say!("SELFTEST {prop} workers={jobs} cases={} rerun={} mismatches={} exit={code}", n, d["cases_rerun_in_another_process"], mism);
+                    if mism > 0 || code == 2 {
+                        bad += 1;
+                    }
+                }
+            }
+            let _ = std::fs::remove_dir_all(&dir);
+            say!("SELFTEST compared={compared} failing_batches={bad}");
+            std::process::exit(if bad > 0 { 2 } else { 0 });
+        }
         Some("dump") => {
             // dump <property> <case_seed> [tier]
             let scn = scenario_for(&args[2]).expect("property");
